@@ -11,10 +11,21 @@ Module level: imports (ComplexSolution, DCSolution from ..Circuit.solution; elm 
 class DiagramSolution(Protocol)      four methods with bodies `...`:  get_voltage/current/power(self, name, reverse),
                                      get_potential(self, name)
 adapter class  [@dataclass] class C:  fields `solution: DCSolution|ComplexSolution` and `f: bool|int = CONST`; exactly the four
-  protocol methods, each    [sign = -1 if reverse else 1]   return <text>
+  protocol methods (private helpers apart, see below), each    [sign = -1 if reverse else 1]   return <text>
   <text>  = '' | dsp.print_real|print_complex|print_sinosoidal|print_active_power(<args by position or keyword>)
             (parameter names, order and defaults are read from SimpleCircuit/Display.py and must be those of the model)
-  <arg>   = [sign*]self.solution.get_voltage|get_current|get_power|get_potential(name) | self.f | self.solution.w | 'lit'
+  <arg>   = [<int>*]self.solution.get_voltage|get_current|get_power|get_potential(name) | self.f | self.solution.w | 'lit'
+  <int>   = sign | INT if reverse else INT          (a conditional expression on a bool parameter -> `if reverse then .. else ..`)
+expression helpers (inlined BEFORE the shapes above are recognised; the generated definitions are those of the code written
+  without the helper, a `sign` local being replaced by its conditional expression):
+  module level   def _f(p: ann, ...): return <expr>           (name starts with one underscore; not a factory)
+  adapter class  def _m(self, p, ...): return <expr>          (name starts with one underscore)
+  no defaults / * / ** / decorators; <expr> contains no lambda / comprehension / walrus, no other names than the parameters (and,
+  for a method, self and dsp), no call of another helper, and every parameter EXACTLY ONCE.  A call `_f(a, k=b)` / `self._m(a, k=b)`
+  inside one of the four getters (arguments by position or keyword, every parameter exactly once, no * / **) is replaced by
+  <expr> with the parameters replaced by the argument expressions (inner calls first).  Each argument is then still evaluated
+  exactly once; the shapes recognised afterwards admit, around it, only literals, field reads and the one dsp.print_* call, so
+  the order of the evaluations that can raise or have an effect is unchanged.  A helper that no getter calls is refused.
 class SchematicDiagramSolution (dataclass: diagram_parser, solution), methods draw_voltage/current/power/potential
   (self, name, opt: bool|str = CONST, ...):
       element = self.diagram_parser.get_element(name)
@@ -40,8 +51,14 @@ factory  def f(schematic: elm.Schematic, p: float|int|bool = CONST, ...) -> ...:
 === Circuit/solution.py, class ComplexSolution ===
   get_voltage|get_current|get_potential(self, id):  if self.peak_values: return self._solution.get_X(id)
                                                     return self._solution.get_X(id)/np.sqrt(2)        (either branch order)
+      or  return self._h(self._solution.get_X(id))  with _h a private method (one leading underscore) of ComplexSolution made of
+      `if <test>: return <e>` / `return <e>` statements only, its parameter exactly once in every returned expression and not
+      in a test: the body of _h with the parameter replaced by the argument must then be the shape above
   get_power(self, id):  if self.peak_values: return 1/2*self.get_voltage(id)*np.conj(self.get_current(id))
                         return self.get_voltage(id)*np.conj(self.get_current(id))
+      optionally preceded by assignments `NAME = <expr>` (each NAME bound once, not defined from another NAME, used exactly once
+      and in the order of the assignments in EVERY returned expression, nowhere else): the shape above must result from replacing
+      the NAMEs by their expressions (every path then evaluates the same calls in the same order)
 === SimpleSimulation/schematic.py (annotation part) ===
   solutions = {'t': ds.<factory>, ...}
   SolutionDefinition.diagram_solution_creator: the pinned text with slots (type key, default type string, fallback factory)
@@ -51,6 +68,7 @@ factory  def f(schematic: elm.Schematic, p: float|int|bool = CONST, ...) -> ...:
       for v in solution_definition.<list>: try: schematic += solution.draw_X(**v)  except dp.UnknownElement as e: print(...)
 """
 import ast
+import copy
 import os
 import re
 
@@ -102,6 +120,88 @@ def fill(schematic, elements, unit, light_lamps, solution_definition):
 """
 
 
+def is_private(name):
+    return name.startswith('_') and not name.startswith('__')
+
+
+class _Subst(ast.NodeTransformer):
+    """replaces the loads of the given names by (copies of) expressions"""
+
+    def __init__(self, mapping):
+        self.mapping, self.count = mapping, {k: 0 for k in mapping}
+
+    def visit_Name(self, n):
+        if isinstance(n.ctx, ast.Load) and n.id in self.mapping:
+            self.count[n.id] += 1
+            return copy.deepcopy(self.mapping[n.id])
+        return n
+
+
+def bind_call(call, params, path, ctx):
+    """arguments of a call (positional / keyword, no * or **) against the parameter names: every parameter exactly once"""
+    given = {}
+    if len(call.args) > len(params) or any(isinstance(a, ast.Starred) for a in call.args):
+        raise Unsupported(f'{where(call, path)}: {ctx}: arguments of the helper call {ast.unparse(call)[:60]}')
+    for name, a in zip(params, call.args):
+        given[name] = a
+    for k in call.keywords:
+        if k.arg is None or k.arg not in params or k.arg in given:
+            raise Unsupported(f'{where(call, path)}: {ctx}: keyword {k.arg} of the helper call {ast.unparse(call)[:60]}')
+        given[k.arg] = k.value
+    if set(given) != set(params):
+        raise Unsupported(f'{where(call, path)}: {ctx}: the helper call does not give every parameter: {ast.unparse(call)[:60]}')
+    return given
+
+
+def expression_helper(f, path, method, allowed_free=()):
+    """a private helper `def _h([self, ]p1: ann, ...): return <expr>`: -> ([p1, ...], expr).  No defaults, no decorators; every
+    parameter occurs exactly once in <expr> (so replacing it by the argument expression keeps the number and the order of the
+    evaluations as long as nothing else in <expr> can raise or has an effect: the recognisers applied AFTER the replacement only
+    admit field reads, literals and one dsp.print_* call around it); no other free names than `allowed_free`."""
+    a = f.args
+    names = [x.arg for x in a.args]
+    if a.vararg or a.kwarg or a.kwonlyargs or a.posonlyargs or a.defaults or f.decorator_list or len(set(names)) != len(names) \
+            or (method and names[:1] != ['self']):
+        raise Unsupported(f'{where(f, path)}: helper {f.name}: parameters are not plain positional parameters without defaults')
+    params = names[1:] if method else names
+    body = body_without_docstring(f)
+    if not (len(body) == 1 and isinstance(body[0], ast.Return) and body[0].value is not None):
+        raise Unsupported(f'{where(f, path)}: helper {f.name}: the body is not a single `return <expression>`')
+    e = body[0].value
+    for n in ast.walk(e):
+        if isinstance(n, (ast.Lambda, ast.ListComp, ast.SetComp, ast.DictComp, ast.GeneratorExp, ast.NamedExpr, ast.Await, ast.Yield,
+                          ast.YieldFrom, ast.Starred)):
+            raise Unsupported(f'{where(n, path)}: helper {f.name}: {type(n).__name__} inside a helper')
+        if isinstance(n, ast.Name) and not (isinstance(n.ctx, ast.Load) and (n.id in params or n.id in allowed_free)):
+            raise Unsupported(f'{where(n, path)}: helper {f.name}: the name {n.id} is neither a parameter nor one of {sorted(allowed_free)}')
+    for q in params:
+        if sum(1 for n in ast.walk(e) if isinstance(n, ast.Name) and n.id == q) != 1:
+            raise Unsupported(f'{where(f, path)}: helper {f.name}: the parameter {q} does not occur exactly once in the returned expression')
+    return params, e
+
+
+class _Inline(ast.NodeTransformer):
+    """replaces the calls of module-level helpers `_f(...)` and of private methods `self._m(...)` by their returned expression
+    (arguments first: inner calls are replaced before outer ones)"""
+
+    def __init__(self, mod_helpers, cls_helpers, path, ctx, uses):
+        self.mh, self.ch, self.path, self.ctx, self.uses = mod_helpers, cls_helpers, path, ctx, uses
+
+    def visit_Call(self, node):
+        self.generic_visit(node)
+        f = node.func
+        if isinstance(f, ast.Name) and f.id in self.mh:
+            key, (params, e) = ('module', f.id), self.mh[f.id]
+        elif isinstance(f, ast.Attribute) and isinstance(f.value, ast.Name) and f.value.id == 'self' and f.attr in self.ch:
+            key, (params, e) = ('method', f.attr), self.ch[f.attr]
+        else:
+            return node
+        given = bind_call(node, params, self.path, self.ctx)
+        self.uses[key] = self.uses.get(key, 0) + 1
+        new = _Subst(given).visit(copy.deepcopy(e))
+        return ast.copy_location(new, node)
+
+
 def const_coq(n, ty, K, path):
     """a literal of the expected type"""
     if isinstance(n, ast.Constant):
@@ -141,6 +241,10 @@ class Gen:
         self.tree = parse(self.path)
         self.classes, self.funcs = {}, {}
         self._module()
+        # module-level private functions `_f(p, ...)`: expression helpers, replaced at their call sites (not factories)
+        self.mod_helpers = {n: expression_helper(f, self.path, method=False) for n, f in self.funcs.items() if is_private(n)}
+        self.funcs = {n: f for n, f in self.funcs.items() if n not in self.mod_helpers}
+        self.helper_uses = {}
         self.display = self._display()
         self.cs_defaults = self._complex_solution_fields()
         self.adapters = {}          # class name -> {'fields': [(name, type, default)], 'coq': name}
@@ -295,9 +399,34 @@ class Gen:
         if [f for f, t, _ in flds if t in ('dc', 'cx')] not in ([], ['solution']):
             raise Unsupported(f'{where(c, p)}: class {c.name}: the solution object is not the field `solution`')
         soltype = next((t for f, t, _ in flds if f == 'solution'), None)
-        ms = [m for m in c.body if isinstance(m, ast.FunctionDef)]
+        allms = [m for m in c.body if isinstance(m, ast.FunctionDef)]
+        if len({m.name for m in allms}) != len(allms):
+            raise Unsupported(f'{where(c, p)}: class {c.name}: a method is defined twice')
+        # private methods `_m(self, p, ...)`: expression helpers, replaced at their call sites `self._m(...)`
+        cls_helpers = {m.name: expression_helper(m, p, method=True, allowed_free=('self', 'dsp')) for m in allms if is_private(m.name)}
+        for hn, (_, he) in cls_helpers.items():
+            for n in ast.walk(he):
+                if isinstance(n, ast.Call) and (isinstance(n.func, ast.Name) and n.func.id in self.mod_helpers or
+                                                isinstance(n.func, ast.Attribute) and n.func.attr in cls_helpers):
+                    raise Unsupported(f'{where(n, p)}: {c.name}.{hn}: a helper calls a helper')
+        uses = {}
+        ms = []
+        for m in allms:
+            if m.name in cls_helpers:
+                continue
+            if any(isinstance(n, ast.Name) and n.id in ('dsp', 'self') and not isinstance(n.ctx, ast.Load) for n in ast.walk(m)) or \
+                    any(x.arg == 'dsp' for x in m.args.args):
+                raise Unsupported(f'{where(m, p)}: {c.name}.{m.name}: dsp / self rebound')
+            m2 = _Inline(self.mod_helpers, cls_helpers, p, f'{c.name}.{m.name}', uses).visit(copy.deepcopy(m))
+            ms.append(ast.fix_missing_locations(m2))
+        for hn in cls_helpers:
+            if not uses.get(('method', hn)):
+                raise Unsupported(f'{where(c, p)}: {c.name}: the private helper {hn} is never called by the four getters')
+        for k, v in uses.items():
+            if k[0] == 'module':
+                self.helper_uses[k[1]] = self.helper_uses.get(k[1], 0) + v
         if [m.name for m in ms] != METHODS:
-            raise Unsupported(f'{where(c, p)}: class {c.name} does not define exactly {METHODS} (in this order)')
+            raise Unsupported(f'{where(c, p)}: class {c.name} does not define exactly {METHODS} (in this order; private helpers `_m` apart)')
         params = ' '.join(f'(self_{f} : {COQ_TYPES[t]})' for f, t, _ in flds)
         args = ' '.join(f'self_{f}' for f, _, _ in flds)
         out = [f'(* class {c.name}   ({where(c, REL)}); fields: ' +
@@ -355,6 +484,8 @@ class Gen:
             if not (len(n.args) == 1 and not n.keywords and isinstance(n.args[0], ast.Name) and n.args[0].id == 'name'):
                 raise Unsupported(f'{where(n, p)}: {ctx}: getter is not called as get_X(name): {ast.unparse(n)}')
             return (f'({soltype}_get self_solution {QUANT[n.func.attr]})', 'Q' if soltype == 'dc' else 'C')
+        if isinstance(n, ast.IfExp) and isinstance(n.test, ast.Name) and env.get(n.test.id, (0, 0))[1] == 'bool':
+            return f'(if {env[n.test.id][0]} then {self.int_lit(n.body, p)} else {self.int_lit(n.orelse, p)})', 'Z'
         if isinstance(n, ast.BinOp) and isinstance(n.op, ast.Mult):
             l, lt = self.value_expr(n.left, env, flds, soltype, ctx)
             r, rt = self.value_expr(n.right, env, flds, soltype, ctx)
@@ -850,12 +981,100 @@ class Gen:
         return pre, out
 
     # ---- Circuit/solution.py: ComplexSolution getters
+    def tail_inlined(self, m, ms, p):
+        """`def m(self, ..): return self._h(E, ...)` with `_h` a private method of the same class whose body is made of
+        `if <test>: return <e>` and `return <e>` only, every parameter of _h occurring exactly once in every returned expression and
+        nowhere else: -> m with the body of _h, its parameters replaced by the argument expressions (each is then evaluated once on
+        every path, before anything else that can raise: the tests read fields only, which the reference shapes pin).  Otherwise m."""
+        body = body_without_docstring(m)
+        if not (len(body) == 1 and isinstance(body[0], ast.Return) and isinstance(body[0].value, ast.Call)):
+            return m
+        call = body[0].value
+        f = call.func
+        if not (isinstance(f, ast.Attribute) and isinstance(f.value, ast.Name) and m.args.args and f.value.id == m.args.args[0].arg
+                and is_private(f.attr) and f.attr in ms):
+            return m
+        h = ms[f.attr]
+        a = h.args
+        names = [x.arg for x in a.args]
+        if a.vararg or a.kwarg or a.kwonlyargs or a.posonlyargs or a.defaults or h.decorator_list or len(set(names)) != len(names) or \
+                not names or names[0] != m.args.args[0].arg:
+            raise Unsupported(f'{where(h, p)}: ComplexSolution.{h.name}: parameters are not (self, p, ...) without defaults')
+        given = bind_call(call, names[1:], p, f'ComplexSolution.{m.name}')
+        new_body = []
+        hb = body_without_docstring(h)
+
+        def ret(st):
+            sub = _Subst(given)
+            e = sub.visit(copy.deepcopy(st.value))
+            if any(v != 1 for v in sub.count.values()):
+                raise Unsupported(f'{where(st, p)}: ComplexSolution.{h.name}: a parameter does not occur exactly once in a returned expression')
+            return ast.Return(value=e)
+        for i, st in enumerate(hb):
+            if isinstance(st, ast.Return) and st.value is not None and i == len(hb) - 1:
+                new_body.append(ret(st))
+            elif isinstance(st, ast.If) and not st.orelse and len(st.body) == 1 and isinstance(st.body[0], ast.Return) and \
+                    st.body[0].value is not None and not any(isinstance(n, ast.Name) and n.id in given for n in ast.walk(st.test)):
+                new_body.append(ast.If(test=copy.deepcopy(st.test), body=[ret(st.body[0])], orelse=[]))
+            else:
+                raise Unsupported(f'{where(st, p)}: ComplexSolution.{h.name}: statement outside `if <test>: return <e>` / `return <e>`')
+        m2 = copy.deepcopy(m)
+        m2.body = new_body
+        return ast.fix_missing_locations(m2)
+
+    def locals_substituted(self, m, p):
+        """a leading run of `NAME = <expr>` statements (each NAME bound once, not a parameter) is substituted into the remaining
+        statements, provided every returned expression uses every NAME exactly once and in the order of the assignments (then every
+        path evaluates the same expressions in the same order as the original)"""
+        body = body_without_docstring(m)
+        k = 0
+        given = {}
+        while k < len(body) and isinstance(body[k], ast.Assign) and len(body[k].targets) == 1 and isinstance(body[k].targets[0], ast.Name):
+            nm = body[k].targets[0].id
+            if nm in given or nm in [x.arg for x in m.args.args]:
+                raise Unsupported(f'{where(body[k], p)}: ComplexSolution.{m.name}: {nm} rebound')
+            if any(isinstance(n, ast.Name) and n.id in given for n in ast.walk(body[k].value)):
+                raise Unsupported(f'{where(body[k], p)}: ComplexSolution.{m.name}: a local is defined from another local')
+            given[nm] = body[k].value
+            k += 1
+        if not given:
+            return m
+        rest = copy.deepcopy(body[k:])
+        for st in rest:
+            for n in ast.walk(st):
+                if isinstance(n, ast.Name) and n.id in given and not isinstance(n.ctx, ast.Load):
+                    raise Unsupported(f'{where(n, p)}: ComplexSolution.{m.name}: {n.id} rebound')
+
+        def names_in_order(e):
+            out = []
+
+            def go(n):
+                if isinstance(n, ast.Name) and n.id in given:
+                    out.append(n.id)
+                for ch in ast.iter_child_nodes(n):
+                    go(ch)
+            go(e)
+            return out
+        rets = [n for st in rest for n in ast.walk(st) if isinstance(n, ast.Return)]
+        used_elsewhere = sum(1 for st in rest for n in ast.walk(st) if isinstance(n, ast.Name) and n.id in given) - \
+            sum(len(names_in_order(r.value)) for r in rets if r.value is not None)
+        if used_elsewhere or any(r.value is None or names_in_order(r.value) != list(given) for r in rets):
+            raise Unsupported(f'{where(m, p)}: ComplexSolution.{m.name}: the locals {sorted(given)} are not used exactly once, in order, in '
+                              f'every returned expression')
+        m2 = copy.deepcopy(m)
+        m2.body = [_Subst(given).visit(st) for st in rest]
+        return ast.fix_missing_locations(m2)
+
     def complex_solution_getters(self):
         c, p = self.cs_class, self.cs_path
         ms = {m.name: m for m in c.body if isinstance(m, ast.FunctionDef)}
+        if len(ms) != len([m for m in c.body if isinstance(m, ast.FunctionDef)]):
+            raise Unsupported(f'{where(c, p)}: ComplexSolution: a method is defined twice')
         out = []
         for g in ('get_voltage', 'get_current', 'get_potential'):
             m = need(ms, g, p, 'method ComplexSolution.')
+            src_m = m
+            m = self.tail_inlined(m, ms, p)
             ref1 = f'def {g}(self, i):\n    if self.peak_values:\n        return self._solution.{g}(i)\n    return self._solution.{g}(i)/np.sqrt(2)'
             ref2 = f'def {g}(self, i):\n    if not self.peak_values:\n        return self._solution.{g}(i)/np.sqrt(2)\n    return self._solution.{g}(i)'
             nm = normalized(m)
@@ -866,14 +1085,18 @@ class Gen:
             else:
                 raise Unsupported(f'{where(m, p)}: ComplexSolution.{g} is not `if self.peak_values: return self._solution.{g}(id)` / '
                                   f'`return self._solution.{g}(id)/np.sqrt(2)`')
-            out.append(f'(* ComplexSolution.{g}   ({where(m, "Circuit/solution.py")}); x = self._solution.{g}(id) *)\n'
+            if src_m.decorator_list:
+                raise Unsupported(f'{where(src_m, p)}: decorated getter')
+            out.append(f'(* ComplexSolution.{g}   ({where(src_m, "Circuit/solution.py")}); x = self._solution.{g}(id) *)\n'
                        f'Definition g_ComplexSolution_{g} (self_peak_values : bool) (x : Cx R) : Cx R :=\n  {code}.')
         m = need(ms, 'get_power', p, 'method ComplexSolution.')
+        src_m = m
+        m = self.locals_substituted(m, p)
         ref = ('def get_power(self, i):\n    if self.peak_values:\n        return 1/2*self.get_voltage(i)*np.conj(self.get_current(i))\n'
                '    return self.get_voltage(i)*np.conj(self.get_current(i))')
         if normalized(m) != norm_src(ref, 'stmt'):
             raise Unsupported(f'{where(m, p)}: ComplexSolution.get_power differs from the reference shape')
-        out.append(f'(* ComplexSolution.get_power   ({where(m, "Circuit/solution.py")}); v, i = self.get_voltage(id), self.get_current(id) *)\n'
+        out.append(f'(* ComplexSolution.get_power   ({where(src_m, "Circuit/solution.py")}); v, i = self.get_voltage(id), self.get_current(id) *)\n'
                    'Definition g_ComplexSolution_get_power (self_peak_values : bool) (v i : Cx R) : Cx R :=\n'
                    '  if self_peak_values then fmul (Cx R) (fmul (Cx R) (cre R (fdiv R (f1 R) (fadd R (f1 R) (f1 R)))) v) (fconj (Cx R) i)\n'
                    '  else fmul (Cx R) v (fconj (Cx R) i).')
@@ -903,6 +1126,9 @@ def generate(src):
         if name in known:
             continue
         sec.append(g.adapter(c))
+    for hn in g.mod_helpers:
+        if not g.helper_uses.get(hn):
+            raise Unsupported(f'{where(g.tree, g.path)}: the module-level helper {hn} is never called by a getter of an adapter class')
     sec += g.draws()
     sigs, kinds = {}, []
     for name, f in g.funcs.items():
